@@ -56,14 +56,13 @@ TInv ==
      /\ CallEnabled(nrm, call)
      /\ prog' = [prog EXCEPT ![p] = CallProg(nrm, call, Ev.b)]
      /\ stk' = [stk EXCEPT ![p] = <<>>]
-     /\ cur' = [cur EXCEPT ![p] = call]
+     /\ cur' = [cur EXCEPT ![p] = [b |-> Ev.b] @@ call]
      /\ ldefs' = [ldefs EXCEPT ![p] = [x \in TypeNames |-> 0]]
      /\ racy' = [racy EXCEPT ![p] = FALSE]
      /\ done' = [done EXCEPT ![p] = FALSE]
-     /\ live' = IF UsesBuf(call) THEN live \cup {Ev.b} ELSE live
   /\ ncalls' = ncalls + 1
   /\ l' = l + 1 /\ Mark(l + 1)
-  /\ UNCHANGED <<cx, taint, turn, h, res>>
+  /\ UNCHANGED <<cx, taint, turn, h, res, live>>
 
 \* One mutex section of a pending call (silent).
 TStep(p) ==
@@ -81,7 +80,8 @@ TStep(p) ==
      /\ h' = IF fin THEN <<[e |-> "step", p |-> p, fin |-> TRUE, r |-> r.st[Len(r.st)], rb |-> r.rb,
                             racy |-> racy[p] \/ r.race, m |-> cur[p].m, ot |-> cur[p].ot]>>
              ELSE <<>>
-  /\ UNCHANGED <<cur, ncalls, live, turn, l>>
+     /\ live' = IF fin /\ UsesBuf(cur[p]) THEN live \cup {cur[p].b} ELSE live
+  /\ UNCHANGED <<cur, ncalls, turn, l>>
 
 TResp ==
   /\ l < Len(Trace) /\ Ev.e = "resp"
